@@ -80,6 +80,11 @@ def make_base():
 
   def y_body(test):
     test.logger.info('y runs; state=%r', dict(test.state))
+    # a phase taking notes in the record's (nested) metadata: must stay private to this run
+    test.test_record.metadata['notes']['seen'].append('y')
+
+  def z_body(test, zp):
+    test.logger.info('z runs with plug %s', type(zp).__name__)
 
   x = h.PhaseOptions(name='x-{a}', timeout_s=30)(x_body)
   x = h.measures(h.Measurement('m').in_range(0, 10).validate_on({R.B: v.in_range(0, 1)}),
@@ -87,7 +92,8 @@ def make_base():
   x = h.diagnose(K['diag1'])(x)
   x = h.plugs.plug(p=K['RealPlug'].placeholder)(x)
   y = h.PhaseOptions(name='y')(y_body)
-  return {'X': x, 'Y': y}
+  z = h.plugs.plug(zp=K['OtherPlug'])(h.PhaseOptions(name='z')(z_body))
+  return {'X': x, 'Y': y, 'Z': z}
 
 
 # ---- structural snapshot --------------------------------------------------------------------------
@@ -198,6 +204,7 @@ def runnable(t):
 
 
 DIAG_B = [False]
+MUTATED = []     # differences between the Test's declared node tree / metadata before and after an execution
 
 
 def build_test(t):
@@ -215,7 +222,7 @@ def build_test(t):
 
   pre_body.__name__ = 'pre'
   pre = h.diagnose(dl.PhaseDiagnoser(R, name='pre_diag')(pre_diag))(h.PhaseOptions(name='pre')(pre_body))
-  test = h.Test(pre, runnable(t))
+  test = h.Test(pre, runnable(t), notes={'seen': []})       # (declared metadata with a mutable nested value)
   cap = htf.Capture()
   test.add_output_callbacks(cap)
   return test, cap
@@ -232,12 +239,16 @@ def execute(t, with_b=False, cache=None):
   test, cap = entry
   del cap.records[:]
   DIAG_B[0] = bool(with_b)
+  before = (snap(test.descriptor.phase_sequence), repr(sorted(test.descriptor.metadata.get('notes', {}).items())))
   try:
     res = test.execute()
   except BaseException as e:  # pylint: disable=broad-except
     res = e
   finally:
     DIAG_B[0] = False
+  after = (snap(test.descriptor.phase_sequence), repr(sorted(test.descriptor.metadata.get('notes', {}).items())))
+  if before != after:
+    MUTATED.append(first_diff(before, after))
   recs = list(cap.records)
   if not recs:
     return ('no-record', type(res).__name__)
@@ -248,14 +259,15 @@ def execute(t, with_b=False, cache=None):
                  tuple(sorted((k, a.sha1) for k, a in p.attachments.items())), tuple(r.name for r in p.diagnosis_results))
                 for p in rec.phases),
           tuple(r.message for r in rec.log_records if ' runs' in r.message),
-          tuple(d.result.name for d in rec.diagnoses))
+          tuple(d.result.name for d in rec.diagnoses),
+          repr(rec.metadata.get('notes')), repr(test.descriptor.metadata.get('notes')))
 
 
 def run_history(hist):
   """hist: list of (op name, source index in pool).  Returns list of (kind, what)."""
   derive, mutate = ops()
   base = make_base()
-  pool = [('X', base['X']), ('Y', base['Y'])]
+  pool = [('X', base['X']), ('Y', base['Y']), ('Z', base['Z'])]
   bad = []
   exec_results = {}
   tests = {}
@@ -273,7 +285,7 @@ def run_history(hist):
         if new is not target:
           pool.append(('%s(%s)' % (name, label), new))
       elif name in mutate:
-        if src < 2:
+        if src < 3:
           return None    # only derived objects are modified; the originals are what must stay intact
         r = mutate[name](target)
         if r is None:
@@ -315,6 +327,10 @@ def run_history(hist):
     except Exception as e:  # pylint: disable=broad-except
       # an operation that the library rejects is simply not part of the history space
       return None
+    if MUTATED:
+      bad.append(('execution-mutated-test', 'step %d %s on %s: executing changed the Test it was declared with: %s'
+                  % (step, name, label, MUTATED[0])))
+      del MUTATED[:]
     after = [snap(o) for _, o in pool[:len(before)]]
     for i, (b, a) in enumerate(zip(before, after)):
       if i in changed_ok:
@@ -343,10 +359,10 @@ def histories(tier):
       if tier == 'quick' and d == 3 and not (combo[0] in derive and combo[2] not in derive):
         continue      # quick: 3-step histories are derive, anything, then a mutation / execution (the observing step)
       # sources: each op applies to X (0) first, later ops apply to the most recently derived object or to X/Y
-      for srcs in itertools.product(range(0, d + 2), repeat=d):
-        if srcs[0] not in (0, 1):
+      for srcs in itertools.product(range(0, d + 3), repeat=d):
+        if srcs[0] not in (0, 1, 2):
           continue
-        if any(s >= 2 + i for i, s in enumerate(srcs)):
+        if any(s >= 3 + i for i, s in enumerate(srcs)):
           continue
         yield list(zip(combo, srcs))
 
